@@ -23,6 +23,7 @@
 -/
 import PercevalModel.Model.C04Trim
 import PercevalModel.Model.C04Generic
+import PercevalModel.Model.C03Prec
 
 namespace PM.C04
 open PM.Fock PM.Dist PM.SimSpec
@@ -123,5 +124,87 @@ def trimmedPassDet (eng : Fock → D) (P : Prec) (c : Cfg) (ds : List Det) (memb
 def trimmedRetainedDet (eng : Fock → D) (P : Prec) (c : Cfg) (ds : List Det) (members : List Member) : ℚ :=
   mass (restrict (fun t => physOk (cond c) t && logicOk (cond c) t) (detFullU eng c ds members)) -
     mass (restrict (fun t => physOk (cond c) t && logicOk (cond c) t) (detTrimU eng P c ds members))
+
+/-! ### (B) superposed inputs under the herald mask with the amplitude threshold of `_merge_sv`
+
+`_probs_svd_generic` at a threshold `θ = p_threshold`: for a member of weight `w` and every term of (normalised)
+weight `|c|²`, the groups' masked state vectors are merged left to right by
+`_merge_sv(acc, group, prob_threshold = θ / (10·|c|²·w))`: the first group is taken as it is (`if not sv1: return sv2`),
+afterwards a product of amplitudes is kept iff `abs(pa1·pa2) > sqrt(prob_threshold)`; an empty accumulated vector ends
+the term (`break`; nothing is added to `result_sv`).  Then the terms are added (interference), `_to_bsd` squares.
+Numbers as in `PM.C03.evolveTermθ` (un-normalised permanents next to the factorial product of the merged groups, so
+that the squared modulus of the real amplitude is the rational `normSq amp / fact`); the only difference with C03's
+model is that every group's outputs are those the herald mask with budget `_best_n` keeps (`ampFilter`). -/
+
+/-- `backend.evolve()` of one group under the mask in force, with the factorials of input and output -/
+def groupEvolveFM {m : ℕ} (U : Matrix (Fin m) (Fin m) GQ) (c : Cfg) (nExt : ℕ) (s : Fock) : List (Fock × GQ × ℚ) :=
+  ((allStates m s.sum).filter (ampFilter c nExt s)).map fun t =>
+    (t, pamp U s t, ((prodFact s * prodFact t : ℕ) : ℚ))
+
+/-- one annotation of the loop over `instate_list` (`acc.2`: a group with photons was already merged) -/
+def stepθM {m : ℕ} (U : Matrix (Fin m) (Fin m) GQ) (c : Cfg) (nExt : ℕ) (thr : ℚ)
+    (acc : PM.C03.AmpsF × Bool) (s : Fock) : PM.C03.AmpsF × Bool :=
+  if s.sum = 0 then (acc.1.map fun x => (x.1 ++ [s], x.2.1, x.2.2), acc.2)
+  else if acc.2 then (PM.C03.mergeSVθ thr acc.1 (groupEvolveFM U c nExt s), true)
+  else (PM.C03.mergeAllF acc.1 (groupEvolveFM U c nExt s), true)
+
+def evolveTermθM {m : ℕ} (U : Matrix (Fin m) (Fin m) GQ) (c : Cfg) (nExt : ℕ) (thr : ℚ) (groups : List Fock) :
+    PM.C03.AmpsF :=
+  (groups.foldl (stepθM U c nExt thr) ([([], 1, 1)], false)).1
+
+/-- the components `result_sv` is the sum of, for a member of weight `w` -/
+def ampsθM {m : ℕ} (U : Matrix (Fin m) (Fin m) GQ) (c : Cfg) (θ w : ℚ) (terms : List Term) :
+    List (List Fock × GQ) :=
+  terms.flatMap fun t =>
+    (evolveTermθM U c (svN terms) (θ / (10 * (PM.C03.termW t / svNorm2 terms) * w)) t.groups).map fun x =>
+      (x.1, t.coef * x.2.1)
+
+/-- squared moduli of gathered components (`_to_bsd`) -/
+def toBsd (m : ℕ) (n2 : ℚ) (l : List (List Fock × GQ)) : D :=
+  (gatherAmps l).map fun p => (flattenTuple m p.1, GQ.normSq p.2 / (((p.1.map prodFact).prod : ℕ) : ℚ) / n2)
+
+/-- `_to_bsd(result_sv)` for one member at threshold `θ` -/
+def memberGenθ {m : ℕ} (U : Matrix (Fin m) (Fin m) GQ) (c : Cfg) (θ w : ℚ) (terms : List Term) : D :=
+  toBsd m (svNorm2 terms) (ampsθM U c θ w terms)
+
+def keptG (c : Cfg) (members : List GMember) : List GMember :=
+  members.filter fun g => decide (minFilter c ≤ svN g.terms)
+
+/-- `p_threshold` of `_preprocess_svd` for a mixture of superpositions (every member holds one photon number) -/
+def pThresholdG (P : Prec) (c : Cfg) (members : List GMember) : ℚ :=
+  max P.minp ((((keptG c members).map (·.w)).foldl max 0) * P.prec)
+
+def keptGθ (P : Prec) (c : Cfg) (members : List GMember) : List GMember :=
+  (keptG c members).filter fun g => decide (pThresholdG P c members < g.w)
+
+/-- `res` of `_probs_svd_generic` before normalisation, at precision `P` -/
+def genResθ {m : ℕ} (U : Matrix (Fin m) (Fin m) GQ) (P : Prec) (c : Cfg) (members : List GMember) : D :=
+  mix ((keptGθ P c members).map fun g => (g.w, memberGenθ U c (pThresholdG P c members) g.w g.terms))
+
+/-- the same accumulation with no threshold at all: every member that passes the photon filter, threshold 0 in
+`_merge_sv` (components of amplitude exactly 0 are the only ones left out) -/
+def genRes0 {m : ℕ} (U : Matrix (Fin m) (Fin m) GQ) (c : Cfg) (members : List GMember) : D :=
+  mix ((keptG c members).map fun g => (g.w, memberGenθ U c 0 g.w g.terms))
+
+/-- `Simulator.probs_svd` on a mixture of superpositions at precision `P` (no detectors / PNR detectors) -/
+def probsSvdGenθ {m : ℕ} (U : Matrix (Fin m) (Fin m) GQ) (P : Prec) (c : Cfg) (members : List GMember) : Out :=
+  finishSvd c (AM.phys c (members.map (toAM U c))) (genResθ U P c members)
+
+/-- bound of the change of one member's distribution caused by the amplitude threshold, as a distribution over the
+outcomes: per annotated output `k`, `|l_k|² + 2·√|b_k|²·√|l_k|²` (kept amplitude `b_k`, dropped `l_k`; rational upper
+square roots `PM.C03.sqrtUp`) -/
+def genErrDM {m : ℕ} (U : Matrix (Fin m) (Fin m) GQ) (c : Cfg) (θ w : ℚ) (terms : List Term) : D :=
+  let a0 := ampsθM U c 0 w terms
+  let aθ := ampsθM U c θ w terms
+  let n2 := svNorm2 terms
+  ((a0 ++ aθ).map (·.1)).dedup.map fun k =>
+    (flattenTuple m k, PM.C03.keyErrOf n2 (PM.C03.ampGet a0 k) (PM.C03.ampGet aθ k) k)
+
+/-- the error distribution of the whole accumulation: the members dropped by the relative threshold with their whole
+distribution, the others with the bound of their internal threshold -/
+def genErrD {m : ℕ} (U : Matrix (Fin m) (Fin m) GQ) (P : Prec) (c : Cfg) (members : List GMember) : D :=
+  mix (((keptG c members).filter fun g => !decide (pThresholdG P c members < g.w)).map fun g =>
+        (g.w, memberGenθ U c 0 g.w g.terms)) ++
+  mix ((keptGθ P c members).map fun g => (g.w, genErrDM U c (pThresholdG P c members) g.w g.terms))
 
 end PM.C04
